@@ -362,7 +362,7 @@ def exec_op(env, op, th=None):
         ns = env.ns[op['spec']]
 
         def thunk():
-            fn = ops.make_function(ns, op['kind'], op.get('root'), op.get('order'))
+            fn = ops.make_function(ns, op['kind'], op.get('root'), op.get('order'), op.get('only'))
             env.fns[op['slot']] = (fn, op)
             return None
     elif kind == 'yaml_probe':
@@ -527,7 +527,7 @@ def _run_plan(plan, pristine_fp, yatiml_dir, yaml_dir, mount, sched, profile=Fal
     sc = sched.Scheduler(plan.get('tape'), yatiml_dir, yaml_dir, U.GEN_PREFIX,
                          scope=knobs.get('scope', 'core'),
                          granularity=knobs.get('granularity', 'line'),
-                         max_steps=(PROFILE_MAX_STEPS if profile else knobs.get('max_steps', 4000000)),
+                         max_steps=(PROFILE_MAX_STEPS if profile else knobs.get('max_steps', 2000000)),
                          traced=traced, on_switch=on_switch, on_yield=on_yield)
 
     def make_body(tid, oplist):
@@ -548,7 +548,8 @@ def _run_plan(plan, pristine_fp, yatiml_dir, yaml_dir, mount, sched, profile=Fal
         if t.error:
             harness.append('thread {} harness error: {}'.format(t.id, t.error))
     if sc.abort and not sc.deadlock:
-        if profile and 'step cap' in sc.abort:
+        if 'step cap' in sc.abort:
+            # too costly a world for the budget: no verdict for this plan, counted
             return {'history': [], 'violations': [], 'harness': [], 'profile_aborted': True,
                     'stats': {'steps': sc.step}}
         harness.append(sc.abort)
@@ -807,8 +808,11 @@ class World(Engine):
             raise HarnessError('{} (plan kept in {})'.format(
                 '; '.join(run['harness'])[:2000], self.keep_plan(plan)))
         if run.get('profile_aborted'):
-            profile['aborted'] = True
-            stats.count('sweep_profiles_too_long')
+            if profile is not None:
+                profile['aborted'] = True
+                stats.count('sweep_profiles_too_long')
+            else:
+                stats.count('plans_skipped_step_cap')
             stats.count('yield_points', run['stats']['steps'])
             return []
         rs = run['stats']
@@ -1003,6 +1007,12 @@ class World(Engine):
             'seam_yields': {'callback': c.get('yields:callback_seam', 0), 'io': c.get('yields:io_seam', 0)},
             'probes': probes,
             'lock_blocks': c.get('lock_blocks', 0),
+            'plans_skipped_step_cap': c.get('plans_skipped_step_cap', 0),
+            'directed_schedules': {'profiling_runs': c.get('sweep_profiles', 0),
+                                   'profiles_too_long': c.get('sweep_profiles_too_long', 0),
+                                   'write_points_found': c.get('sweep_write_points', 0),
+                                   'distinct_write_locations': len(stats.distinct.get('write_locations', ())),
+                                   'derived_schedule_runs': c.get('sweep_runs', 0)},
             'recursion_errors_not_compared': c.get('recursion_error_not_compared', 0),
             'simulated_time': ('not applicable: yatiml reads no clock and has no timers; the unit of progress '
                                'is the yield point (a traced source line / bytecode, a seam call)'),
